@@ -99,6 +99,7 @@ TRUSTED = ['CPython int()/float()/str.split/strip/startswith and text-mode line 
            'modelled: sugar/_io/tab/core.py _headers_from_fmtstrings, read_tabular; the blast/mmseqs/infernal reader wrappers; '
            'Location/Strand/Feature constructors as far as they can raise; read_fts dispatch is inside the comparison']
 ASSUMPTIONS = ['file content, outfmt and ftype are Latin-1 text (code points 0..255); other code points are not modelled', "numeric tokens do not use '_' digit grouping",
+               'the four coordinate tokens of a row with all coordinate columns are integers',
                'separator is one character or None', 'header names never collide with Attr method names (F20 not reachable)']
 
 
@@ -336,7 +337,7 @@ def rand_case(rng):
         case['_colmode'] = 'default'
     if d != 'infernal' and case['_colmode'] != 'default' and rng.random() < 0.8:
         case['cols'] = rand_cols(rng, d)
-    if d != 'infernal' and rng.random() < 0.1:
+    if d != 'infernal' and case['_style'] != '10' and rng.random() < 0.1:      # (a comma-separated table has no blanks to split at)
         case['sepnone'] = True
     if case['_colmode'] == 'header+outfmt' and rng.random() < 0.6:
         case['hdrperm'] = True
@@ -1608,7 +1609,7 @@ LEVEL_TEXT = ('Machine-checked Coq theorems about an executable model of read_ta
               'opposite directions, ValueError iff an explicit sstrand contradicts, N/A -> ".", rows without direction take the sstrand '
               'column (plus/minus mapped); (2) the regenerated column tables are consistent (finite, re-checked against /repo on every run), '
               'and EVERY column of every dialect has the type of a declared-type table written from the manuals of the three tools '
-              '(C11_declared_tables; _CONVERTH entries agree with the type of the BLAST column they stand for, except qframe/sframe which '
+              '(C11_declared_tables, C11_converth_typed; _CONVERTH entries agree with the type of the BLAST column they stand for, except qframe/sframe which '
               'MMseqs2 writes as text); (3) a tokenised row gives one format-metadata entry per column, converted with that declared type '
               '(C11_columns_typed, C11_conv_meaning), the common metadata is exactly [type] + score<-bit score, evalue<-e-value, '
               'seqid<-subject id, name<-query id for the columns present and nothing else (C11_common_metadata, C11_copyattrs_documented), '
@@ -1630,7 +1631,11 @@ LEVEL_TEXT = ('Machine-checked Coq theorems about an executable model of read_ta
               'of BLAST and MMseqs2 is, on any text, the fold any_features: a "# Fields:" line always replaces the columns in force '
               '(C11_fields_line_resets: no block inherits columns from an earlier one), an MMseqs2 name row sets them only if none are in '
               'force, every other line that is no comment is read with the columns in force, the defaults if none '
-              '(C11_read_any_discover, C11_any_features_block); (7) float() on e-values and '
+              '(C11_read_any_discover, C11_any_features_block); the Infernal reader on any text is the fold inf_any: the first line holding '
+              '"--" while no columns are known is the ruler, before it only comment/blank lines are accepted (a row there is a KeyError), '
+              'after it every non-comment line is a row (C11_read_infernal_text, C11_infernal_row_before_ruler); every feature of a whole '
+              'read has every selected column typed and the documented common metadata (C11_read_features_typed); (7) int(): py_int v = z '
+              'exactly when v is [blanks][sign]digits[blanks] with value z (C11_int_iff); float() on e-values and '
               'scores: every text of the grammar [sign] digits [. digits] [(e|E) [sign] digits] with blanks around it is the number with '
               'exactly that mantissa and decimal exponent, and the words inf/infinity/nan in any case are read as such (C11_float_parse, '
               'C11_float_words), and conversely whatever the modelled float() accepts is such a text or word, everything else is rejected and '
@@ -1664,6 +1669,9 @@ LEVEL_NOTE = ('Trusted: Coq kernel/vm_compute, tools/gens/c11.py (tables), the c
               'State independence (no caches or shared objects between reads, rows or dialects) is not a theorem about sugar: the model '
               'is pure by construction and the history stream compares every step of multi-read histories with it. '
               'Rows without a direction take the strand of the sstrand column (plus/minus words mapped, commit 7bd306b). '
+              'Domain since round 7: rows whose number of tokens differs from the number of columns (ValueError) and rows without one of '
+              'the coordinate columns (KeyError) are INSIDE the domain (they were outside, which hid a mutation of the name-row test); outside '
+              'remain: a coordinate token that is no integer (str/int comparison), "_" digit grouping in a typed token, non-Latin-1 text. '
               'All theorems closed under the global context.')
 TECHNIQUE = 'Coq proof (lia + finite table enumeration) over a Gallina model; differential correspondence model vs sugar.read_fts'
 
